@@ -13,7 +13,7 @@ def split_line(line):
     regs = {}
     for p in parts[1:]:
         if p.startswith("t="):
-            ticks = int(p[2:])
+            ticks = int(p[2:]) if p[2:] != "-" else -1
         else:
             m = STATE_RE.match(p)
             if m:
@@ -263,7 +263,7 @@ ORACLES = {
     "C07": Oracle(("fault", "wf", "order")),
     "C08": Oracle(("fault", "wf", "order", "extreme")),
     "C09": Oracle(("fault", "wf")),
-    "C10": Oracle(("wf",)),
+    "C10": None,  # decided by the fault classification in pqv (caught panics may leave any safe state)
     "C11": Oracle(("fault", "wf", "order")),
     "C12": Oracle(("fault", "wf")),
     "C13": Oracle(("fault", "wf")),
@@ -273,3 +273,70 @@ ORACLES = {
     "C17": Oracle(("fault", "wf", "cap")),
     "C18": Oracle(("fault", "wf")),
 }
+
+
+# ----------------------------------------------------------------------------- C10: faults after caught panics
+SIFT_UP_OPS = ("push", "pushinc", "pushdec", "chg", "chgby", "chgadd", "remove", "popif", "extend", "fromiter")
+RETAIN_OPS = ("retain", "retainmut")
+
+
+def classify_fault(ops, lines, k):
+    """a fault at step k of a history: which step first left tables that are
+    not well-formed?  Returns (class key or None, step of the culprit)"""
+    for j in range(min(k, len(lines))):
+        _, _, regs = split_line(lines[j])
+        if any(wf_violation(r) for r in regs.values()):
+            toks = ops[j].split()
+            name = toks[2] if toks[0] == "fuse" else toks[0]
+            if not lines[j].startswith("unwound"):
+                return "not-an-unwinding:" + name, j
+            if name in SIFT_UP_OPS:
+                return "sift_up.unwind", j
+            if name in RETAIN_OPS:
+                return "retain.predicate.unwind", j
+            return "other.unwind:" + name, j
+    return None, None
+
+
+def classify_silent_tail(ev):
+    """the implementation aborted somewhere in the part of a history that is
+    executed silently after a caught panic inside retain (the model does not
+    describe IndexMap's stale index there).  The culprit can only be narrowed
+    down to the fused operations of that tail."""
+    cls, j = classify_fault(ev["ops"], ev["lines"], ev["step"])
+    if cls is not None:
+        return cls, j
+    for j in range(ev["step"], len(ev["all_ops"])):
+        toks = ev["all_ops"][j].split()
+        if toks[0] == "fuse":
+            if toks[2] in SIFT_UP_OPS:
+                return "sift_up.unwind", j
+            if toks[2] in RETAIN_OPS:
+                return "retain.predicate.unwind", j
+    return None, None
+
+
+def compare_fault_tolerant(hist, it, mt):
+    """C10 comparison: lines must agree up to the first fault of a history;
+    returns (first real divergence or None, list of fault events)"""
+    ti, tm = read_traces(it), read_traces(mt)
+    diverged, events = None, []
+    for hid, header, ops in read_histories(hist):
+        a, b = ti.get(hid, []), tm.get(hid, [])
+        n = max(len(a), len(b))
+        for k in range(n):
+            la = a[k] if k < len(a) else None
+            lb = b[k] if k < len(b) else None
+            fa = la is not None and la.startswith("fault")
+            fb = lb is not None and lb.startswith("fault")
+            if fa or fb:
+                events.append(dict(header=header, ops=ops[: k + 1], step=k, impl=la, model=lb,
+                                   lines=a[:k], all_ops=ops))
+                break
+            if la != lb:
+                if diverged is None:
+                    diverged = dict(id=hid, header=header, ops=ops, step=k,
+                                    op=ops[k] if k < len(ops) else None,
+                                    impl=la or "<missing>", model=lb or "<missing>")
+                break
+    return diverged, events
